@@ -81,6 +81,7 @@ type Run struct {
 	maxSched int
 
 	afterSettle func()
+	Sites       []string // lock-site inventory of the current tree (sorted)
 	Known       string
 	Desc        string
 }
